@@ -1,1 +1,24 @@
+"""Stand-in for the `lakers` package: aiocoap.edhoc only has to be importable (aiocoap.oscore_sitewrapper and
+aiocoap.transports.oscore import it); EDHOC itself is not exercised by any check, and every entry point refuses to work."""
 
+
+class _Unavailable:
+    def __init__(self, *a, **k):
+        raise NotImplementedError("the lakers stand-in of /verif/shims does not implement EDHOC")
+
+
+class EADItem(_Unavailable):
+    pass
+
+
+class EdhocInitiator(_Unavailable):
+    pass
+
+
+class EdhocResponder(_Unavailable):
+    pass
+
+
+class CredentialTransfer:
+    ByReference = "by-reference"
+    ByValue = "by-value"
